@@ -113,7 +113,7 @@ def caseLines (store : String) (ps : Progs) (i0 : Option Bytes) (cap : Nat) (pro
             | some s => (FsConc.curOp ps s t).isSome && !FsConc.enabled .fixed ps s t
             | none => false)
         match dis with
-        | t :: _ => some (base ++ " sched=" ++ showSched (pre ++ [t]))
+        | t :: _ => some (base ++ " sched=" ++ showSched (pre ++ [t]) ++ " probe=1")
         | [] => none))
   full ++ blocked
 
